@@ -103,7 +103,7 @@ fn check_prove(ops: &[Op], j: Option<u64>) {
 
 macro_rules! h {
     ($fname:ident, $body:expr) => {
-        #[kani::proof] #[kani::unwind(10)]
+        #[kani::proof] #[kani::unwind(40)]
         #[kani::stub(fuel_merkle::binary::hash::leaf_sum, toy_leaf)]
         #[kani::stub(fuel_merkle::binary::hash::node_sum, toy_node)]
         #[kani::stub(core::result::Result::expect, expect_model)]
